@@ -29,7 +29,7 @@ pub fn run_job(line: &str) -> String {
                 Err(ps) => format!("panic {}", ps.site),
             }
         }
-        Some("render") if p.len() == 11 => {
+        Some("render") if p.len() == 11 || p.len() == 12 => {
             let w: u32 = p[1].parse().unwrap_or(1);
             let h: u32 = p[2].parse().unwrap_or(1);
             let f = |s: &str| f32::from_bits(u32::from_str_radix(s, 16).unwrap_or(0));
@@ -45,7 +45,19 @@ pub fn run_job(line: &str) -> String {
             let Some(mut pm) = tiny_skia::Pixmap::new(w, h) else { return "err canvas".to_string() };
             reset_alloc_stats();
             CAP.store(cap, Ordering::Relaxed);
-            let r = pan::catch(|| resvg::render(&tree, ts, &mut pm.as_mut()));
+            // with a 12th field: the node of that id alone, through the node-export entry point
+            let r = match p.get(11) {
+                None => pan::catch(|| resvg::render(&tree, ts, &mut pm.as_mut())),
+                Some(id) => {
+                    let Some(node) = tree.node_by_id(id) else {
+                        CAP.store(usize::MAX, Ordering::Relaxed);
+                        return "err no-such-node".to_string();
+                    };
+                    pan::catch(|| {
+                        let _ = resvg::render_node(node, ts, &mut pm.as_mut());
+                    })
+                }
+            };
             CAP.store(usize::MAX, Ordering::Relaxed);
             match r {
                 Ok(()) => format!("ok maxalloc={} peak={}", MAX_SINGLE.load(Ordering::Relaxed), PEAK.load(Ordering::Relaxed)),
